@@ -148,14 +148,21 @@ def boundary_case(name, mk, info, k, m=1):
     return Case(cname, body, goals, family="bcontains/" + name, params=dict(shape=name, k=k, **info))
 
 
-def own_sample_case(name, mk, info, n, grid=False):
-    cname = "own_boundary_sample/%s/%s/n%d" % (name, "grid" if grid else "random", n)
+def own_sample_case(name, mk, info, n, grid=False, after_other=False):
+    """after_other: ANOTHER object of the same kind (other symbolic parameters) was sampled with the same method and count
+    just before, and this object once already -- the boundary still accepts what its own sampler returns now"""
+    cname = "own_boundary_sample/%s/%s/n%d%s" % (name, "grid" if grid else "random", n, "/after_other_object" if after_other else "")
 
     def body(env):
         sh = mk(env)
         L = env.L
         env.assume(sh.oset.positive({}, L))
         bd = sh.dom.boundary
+        if after_other:
+            other = SH.PRIMS[info["kind"]](env, tag="Z")
+            env.assume(other.oset.positive({}, L))
+            for b_ in (bd, other.dom.boundary):
+                (b_.sample_grid if grid else b_.sample_random_uniform)(n=n)
         pts = (bd.sample_grid if grid else bd.sample_random_uniform)(n=n)
         res = bd._contains(pts)
         return dict(res=res, n=len(pts))
@@ -404,6 +411,8 @@ def cases(tier):
             for n in ((1, 2) if tier == "quick" else (1, 2, 3)):
                 cs.append(own_sample_case(name, mk, info, n))
             cs.append(own_sample_case(name, mk, info, 3, grid=True))
+            if "kind" in info and info["kind"] in SH.PRIMS:
+                cs.append(own_sample_case(name, mk, info, 2, grid=True, after_other=True))
     cs.append(point_case(0))
     cs.append(point_case(2))
     cs.append(named_axes_case(0))
